@@ -1,5 +1,6 @@
 PROPS["C08"] = {
-    "runs": [{"cmd": "c08.random", "quick": 6000, "thorough": 120000, "thorough_seeds": 2}],
+    "runs": [{"cmd": "c08.random", "quick": 6000, "thorough": 120000, "thorough_seeds": 2},
+             {"cmd": "c08.gen", "quick": 40, "thorough": 600, "thorough_seeds": 2}],
     "nontrivial": lambda c: c["input"].count("(") >= 6,
     "rule": "random sets of 2..6 lookahead alternatives over up to 5 predicate inputs: decision lists (exclusive by construction, shuffled), corrupted decision lists (flipped polarity, dropped literal, swapped order) and unstructured sets; for accepted sets all 2^n truth assignments are enumerated against the returned rule",
     "modelled": "lalr/lookahead.go newLookaheadRule (order graph, DFS with depth, pickLookahead, swap-remove bookkeeping) and the generated if/else-if chain of go_parser.go.tmpl that evaluates a LookaheadRule",
